@@ -392,9 +392,6 @@ class HQ(tuple):
 # statements and documents
 # --------------------------------------------------------------------------
 def gen_name(rng, reader):
-    if reader == "ISIS" and rng.random() < 0.04:
-        # the ISIS grammar does not know the BEGIN_ keywords: ordinary names
-        return casevar(rng, rng.choice(("BEGIN_GROUP", "BEGIN_OBJECT")))
     return rng.choice(NAMES_ODL if reader in ("ODL", "PDS3") else NAMES_PVL)
 
 
